@@ -4,7 +4,6 @@
      runJson (2 :: kind :: tree) direct loader of `kind` -> same
      runJson (3 :: obj)         tree of enc_obj o       -> 0 tree | 1 (constructor error) | 2
      runJson (4 :: obj)         tree of enc_payload o
-     runJson (5 :: tree)        from_json_try (the serde(try_from) variant) -> class only
      runJson (10.. :: args)     constructors, see below *)
 From Coq Require Import ZArith List Bool Floats.
 From RL Require Import Base.Outcome Base.Num Base.Str Base.NumFloat Model.Dates Model.Calendar Model.Named
@@ -70,14 +69,9 @@ Definition norm_cal (c : cal) : cal := mkCal (zdedup (c_mask c)) (zdedup (c_hols
 Definition norm_ucal (u : ucal) : ucal :=
   mkUCal (map norm_cal (u_cals u)) (option_map (map norm_cal) (u_settle u)).
 
-Fixpoint ins_key {V} (kv : Z * V) (m : list (Z * V)) : list (Z * V) :=
-  match m with
-  | [] => [kv]
-  | x :: r => if fst kv <? fst x then kv :: m else x :: ins_key kv r
-  end.
 (* Nodes -> NodesTimestamp (seconds) -> sort_keys, as CurveDF::try_new does *)
 Definition mk_nodes {V} (l : list (Z * V)) : list (Z * V) :=
-  fold_right ins_key [] (fold_left (fun acc kv => im_put (fst kv * 86400) (snd kv) acc) l []).
+  sort_keys (fold_left (fun acc kv => im_put (fst kv * 86400) (snd kv) acc) l []).
 
 Definition rd_node {V} (rd : list Z -> V * list Z) (l : list Z) : (Z * V) * list Z :=
   match l with d :: r => let '(v, r') := rd r in ((d, v), r') | [] => ((0, fst (rd [])), []) end.
@@ -189,10 +183,9 @@ Definition run_csolve (l : list Z) : list Z :=
 Definition runJson (l : list Z) : list Z :=
   match l with
   | 1 :: r => out_load (from_json_model (fst (rd_json r)))
-  | 2 :: k :: r => out_load (dec_payload rebuild_named_expect rebuild_fx_expect (Z.to_nat k) (fst (rd_json r)))
+  | 2 :: k :: r => out_load (dec_payload rebuild_named rebuild_fx (Z.to_nat k) (fst (rd_json r)))
   | 3 :: r => match rd_obj r with Ok o => 0 :: wrj (enc_obj o) | Err => [1] | Panic => [2] end
   | 4 :: r => match rd_obj r with Ok o => 0 :: wrj (enc_payload o) | Err => [1] | Panic => [2] end
-  | 5 :: r => [oclass (from_json_try (fst (rd_json r)))]
   (* constructors *)
   | 10 :: r =>
       let '(vars, r) := rd_names r in let '(x, r) := rd_f r in
